@@ -27,7 +27,7 @@ from mc import core, gen
 ID = "C13"
 LEVEL = "exploration"
 RULE = (
-    "values = every Unicode scalar value U+0000-U+10FFFF (quick: three contexts up to U+FFFF, a<c>b beyond; "
+    "values = every Unicode scalar value U+0000-U+10FFFF (three contexts; "
     "surrogates excluded) in three contexts (c, a+c+b, c+c) + every concatenation of <=4 (thorough <=5) atoms of a "
     "19-atom alphabet (quote, semicolon, comma, backslash, =, space, TAB, CR, LF, NUL, 0x19, 0x1A, 0x1F, 0x7F, %, "
     "e-acute, non-BMP, an already escaped \\054); token keys x values; the full attribute product; the test-client "
@@ -794,7 +794,7 @@ def units(tier):
     n = 400
     for i in range(0, len(ac), n):
         us.append(("attrs", i, i + n))
-    jd = 3 if tier == "thorough" else 2
+    jd = 3
     for i in range(len(ATOMS)):
         us.append(("jar", i, jd))
     # ---- round 2
@@ -821,8 +821,8 @@ def units(tier):
     for lo in range(0, xtop, xchunk):
         if not (0xD800 <= lo and lo + xchunk <= 0xE000):
             us.append(("sweepx", lo, min(lo + xchunk, xtop)))
-    if T:
-        # depth-5 strings: one unit per leading atom pair
+    if True:
+        # depth-5 strings: one unit per leading atom pair (both tiers)
         for i in range(len(ATOMS)):
             for j in range(len(ATOMS)):
                 us.append(("strings5", i, j))
@@ -844,7 +844,7 @@ def run_unit(unit, R, tier):
                 continue
             c = chr(cp)
             check_value(R, "k", "a" + c + "b", "sweep")
-            if cp < 0x10000 or tier == "thorough":   # quick: planes 1-16 in the a<c>b context only
+            if True:   # all three main contexts on every plane in both tiers
                 check_value(R, "k", c, "sweep", with_tail=False)
                 check_value(R, "k", c + c, "sweep", with_tail=False)
         try:
@@ -966,13 +966,13 @@ def run_r2_unit(unit, R, tier):
                                 for sepi in range(1, len(MC_SEPS)):
                                     r2_eval(R, "multi", ((k0, k1), (v0, v1), 0, parser, sepi))
                                     R.use("sep:%d" % sepi)
-        rest3 = range(nv) if T else range(6)
+        rest3 = range(nv)
         for keys in itertools.product(range(3), repeat=3):
             for v1 in rest3:
                 for v2 in rest3:
                     for parser in (0, 1):
                         r2_eval(R, "multi", (keys, (v0, v1, v2), 0, parser))
-        if T:
+        if True:
             for keys in itertools.product(range(3), repeat=4):
                 for vs in itertools.product(range(6), repeat=3):
                     r2_eval(R, "multi", (keys, (v0,) + vs, 0, 0))
@@ -1041,8 +1041,7 @@ def finalize(R, tier):
     need |= {"tchar:" + c for c in TCHARS} | {"cls:%d" % i for i in range(len(MC_CLS))} | {"parser:0", "parser:1"}
     need |= {"sep:%d" % i for i in range(1, len(MC_SEPS))}
     need |= {"jarop:" + o for o in JAR_OPS} | {"attrkey:" + n for n in ATTR_NAMES}
-    if tier == "thorough":
-        need |= {"strings5"}
+    need |= {"strings5"}
     missing = need - R.used
     if missing:
         raise core.Broken(f"vacuity: never exercised {sorted(missing)[:12]}")
@@ -1054,8 +1053,8 @@ def finalize(R, tier):
         if not VAL.fullmatch(good[2:]):
             raise core.Broken(f"oracle self-test: value syntax rejects {good!r}")
     return {
-        "bound": ("U+0000-U+FFFF x3 contexts (+10 more contexts), U+10000-U+10FFFF x1 context, strings <=4 atoms, jar <=2 atoms, "
-                  "multi-cookie headers <=3, jar histories <=4, full attribute product" if tier == "quick" else
+        "bound": ("U+0000-U+10FFFF x3 contexts (+10 more contexts up to U+FFFF), strings <=5 atoms, jar <=3 atoms, "
+                  "multi-cookie headers <=4, jar histories <=4, full attribute product" if tier == "quick" else
                   "U+0000-U+10FFFF x13 contexts, strings <=5 atoms, jar <=3 atoms, multi-cookie headers <=4, "
                   "jar histories <=5"),
         "exhaustive": True,
